@@ -201,6 +201,18 @@ Fixpoint listN_eqb (a b : list N) : bool :=
 Definition horderb (keys : list N) (l l' : list stmt) : bool :=
   forallb (fun k => listN_eqb (sids (filter (seq_writer k) l)) (sids (filter (seq_writer k) l'))) keys.
 
+(* a cut  a | b  (a committed before b is declared) is closed: no statement of b writes a key a statement of a reads *)
+Definition closed_prefixb (a b : list stmt) : bool :=
+  forallb (fun s => forallb (fun r => forallb (fun s' => negb (writes r s')) b) (sreads s)) a.
+(* programs with intermediate commits the theorems cover: at most one cut, and that cut closed *)
+Definition segs_closedb (segs : list (list stmt)) : bool :=
+  match segs with
+  | [] => true
+  | [_] => true
+  | [a; b] => closed_prefixb a b
+  | _ => false
+  end.
+
 (* ------------------------------------------------------------------ value / store equality *)
 Fixpoint value_eqb (a b : value) : bool :=
   match a, b with
@@ -344,7 +356,7 @@ Definition set_acc (w : wstmt) (a : N) : wstmt :=
   mkW (wrow w) (mkS (sid s) (sphase s) (smode s) a (sreads s) (swrites s)) (wdisc w) (weager w).
 
 Record vres := mkV { v_out : outcome; v_exec : list stmt; v_decl : list stmt; v_store : store;
-                     v_h0 : bool; v_sched : bool }.
+                     v_h0 : bool; v_sched : bool; v_closed : bool }.
 
 Definition discs_nodup (acts : list action) : bool := nodupN (somes (map D acts)).
 
@@ -375,7 +387,8 @@ Definition run_variant (ws : list wstmt) (v : val) : option vres :=
       let ex := pick (map fst decl) (run_ids log) in
       let dl := map (fun wp => wst (fst wp)) decl in
       Some (mkV o ex dl (runl ex empty) (discs_nodup acts)
-                (listN_eqb (sids ex) (sids (flat_map schedule (split_at cs dl)))))
+                (listN_eqb (sids ex) (sids (flat_map schedule (split_at cs dl))))
+                (segs_closedb (split_at cs dl)))
   | VL [VL nodes; VL places] =>
       olet paths := node_paths child_path nodes [[]] in
       olet pl := map_opt get_place places in
@@ -386,7 +399,7 @@ Definition run_variant (ws : list wstmt) (v : val) : option vres :=
       let ex := pick (map fst decl) (run_ids log) in
       let dl := map (fun wp => wst (fst wp)) decl in
       Some (mkV o ex dl (runl ex empty) (discs_nodup acts)
-                (listN_eqb (sids ex) (sids (schedule dl))))
+                (listN_eqb (sids ex) (sids (schedule dl))) true)
   | _ => None
   end.
 
@@ -424,7 +437,8 @@ Definition check_emit (v : val) : option bool :=
              per variant [outcome; executed sids; cells of the store at [keys];
                           flags [h0 distinct discriminators; executed = schedule; h1; h2;
                                  order of containers kept w.r.t. variant 0;
-                                 store equal to variant 0's]]] *)
+                                 store equal to variant 0's;
+                                 intermediate commits: at most one cut and that cut closed (closed_prefixb)]]] *)
 Definition run_C08 (v : val) : val :=
   ret_or_bad (
     match v with
@@ -444,6 +458,7 @@ Definition run_C08 (v : val) : val :=
                              VL (map (fun k => put_cell (v_store r k)) keys);
                              VL [vbool (v_h0 r); vbool (v_sched r); vbool (h1b (v_exec r)); vbool (h2b (v_exec r));
                                  vbool (match v0 with Some z => horderb keys (v_exec z) (v_exec r) | None => true end);
-                                 vbool (match v0 with Some z => store_eqb keys (v_store z) (v_store r) | None => true end)]]) vs)])
+                                 vbool (match v0 with Some z => store_eqb keys (v_store z) (v_store r) | None => true end);
+                                 vbool (v_closed r)]]) vs)])
     | _ => None
     end).
